@@ -1,6 +1,5 @@
 SPECIFICATION Spec
-CONSTANTS MaxLookups = 3
- SysVersions = {0, 1, 3}
+CONSTANTS SysVersions = {0, 1, 3}
  SubV = 2
  MainV = 3
 INVARIANT TypeOK
@@ -18,5 +17,9 @@ INVARIANT RepeatStable
 INVARIANT FirstResultSticks
 INVARIANT NotFoundNotCached
 INVARIANT ReadingsAgreeOutsideCorner
+INVARIANT ForcedIgnoresPersistentCache
+INVARIANT OverrideBeatsPersistentCache
+INVARIANT PersistentCacheOnlyReusesPositive
+INVARIANT FreshReadingIgnoresCache
 CHECK_DEADLOCK FALSE
 POSTCONDITION EmitSpace
